@@ -15,6 +15,8 @@ import (
 	"io"
 	"net"
 	"os"
+	"regexp"
+	"runtime/debug"
 	"strings"
 	"syscall"
 
@@ -357,10 +359,26 @@ func Clients() []Client {
 // metadata says ip_version 4 and whose search tree holds no record: looking up an IPv4 address finds
 // nothing, looking up an IPv6 address fails with the reader's "error looking up '<ip>': you attempted to
 // look up an IPv6 address in an IPv4-only database".
-func IPv4OnlyMMDB(dbType string) []byte {
+func IPv4OnlyMMDB(dbType string) []byte { return MMDB(dbType, "v4") }
+
+// DBShapes are the shapes a GeoIP database file of the station can have: no file configured, an IPv4-only
+// database, a dual-stack one (both with an empty search tree: every lookup finds nothing), and one that opens
+// but whose search tree points outside the data section (every lookup fails inside the reader).
+var DBShapes = []string{"absent", "v4", "dual", "corrupt"}
+
+// MMDB builds a minimal MaxMind database of the given type and shape ("v4", "dual", "corrupt").
+func MMDB(dbType, shape string) []byte {
 	var b []byte
-	b = append(b, 0, 0, 1, 0, 0, 1)       // one node of two 24-bit records, both = node_count: no data
-	b = append(b, make([]byte, 16)...)    // data section separator; the data section is empty
+	ipVersion := 4
+	if shape != "v4" {
+		ipVersion = 6
+	}
+	if shape == "corrupt" {
+		b = append(b, 0, 0, 0x70, 0, 0, 0x70) // both records: a pointer far behind the end of the data section
+	} else {
+		b = append(b, 0, 0, 1, 0, 0, 1) // one node of two 24-bit records, both = node_count: no data
+	}
+	b = append(b, make([]byte, 16)...) // data section separator; the data section is empty
 	b = append(b, "\xab\xcd\xefMaxMind.com"...)
 	str := func(s string) { b = append(b, byte(2<<5|len(s))); b = append(b, s...) }
 	u16 := func(v int) { b = append(b, 5<<5|2, byte(v>>8), byte(v)) }
@@ -376,7 +394,7 @@ func IPv4OnlyMMDB(dbType string) []byte {
 	str("description")
 	b = append(b, 7<<5|0)
 	str("ip_version")
-	u16(4)
+	u16(ipVersion)
 	str("languages")
 	b = append(b, 0, 4) // empty array (extended type 11)
 	str("node_count")
@@ -384,6 +402,98 @@ func IPv4OnlyMMDB(dbType string) []byte {
 	str("record_size")
 	u16(24)
 	return b
+}
+
+// WriteDBs writes the two database files of a configuration into dir; the path of an absent database is "".
+func WriteDBs(dir, ccShape, asnShape string) (ccPath, asnPath string, err error) {
+	if ccShape != "absent" {
+		ccPath = dir + "/cc-" + ccShape + ".mmdb"
+		if err = os.WriteFile(ccPath, MMDB("GeoLite2-Country", ccShape), 0o644); err != nil {
+			return
+		}
+	}
+	if asnShape != "absent" {
+		asnPath = dir + "/asn-" + asnShape + ".mmdb"
+		err = os.WriteFile(asnPath, MMDB("GeoLite2-ASN", asnShape), 0o644)
+	}
+	return
+}
+
+// FDCapture diverts the process's file descriptors 1 and 2 into a file: everything the process writes to its
+// standard streams — loggers created on os.Stdout / os.Stderr, the standard logger, fmt.Print*, the builtin
+// println, the runtime — is there to be scanned, whichever logger object it went through.
+type FDCapture struct {
+	f        *os.File
+	saved    [2]int
+	off      int64
+	crashOut *os.File
+}
+
+func CaptureFDs() (*FDCapture, error) {
+	f, err := os.CreateTemp("", "verif-c17-fds")
+	if err != nil {
+		return nil, err
+	}
+	c := &FDCapture{f: f}
+	for i := range c.saved {
+		if c.saved[i], err = syscall.Dup(i + 1); err != nil {
+			return nil, err
+		}
+	}
+	// a fatal error of the runtime must still reach whoever started the process
+	if fd, err := syscall.Dup(2); err == nil {
+		c.crashOut = os.NewFile(uintptr(fd), "original-stderr")
+		_ = debug.SetCrashOutput(c.crashOut, debug.CrashOptions{})
+	}
+	for i := range c.saved {
+		if err = syscall.Dup3(int(f.Fd()), i+1, 0); err != nil {
+			c.Stop()
+			return nil, err
+		}
+	}
+	return c, nil
+}
+
+// Take returns what was written since the last call.
+func (c *FDCapture) Take() string {
+	st, err := c.f.Stat()
+	if err != nil || st.Size() <= c.off {
+		return ""
+	}
+	b := make([]byte, st.Size()-c.off)
+	n, _ := c.f.ReadAt(b, c.off)
+	c.off += int64(n)
+	return string(b[:n])
+}
+
+func (c *FDCapture) Stop() {
+	for i, fd := range c.saved {
+		if fd > 0 {
+			_ = syscall.Dup3(fd, i+1, 0)
+			syscall.Close(fd)
+			c.saved[i] = 0
+		}
+	}
+	_ = debug.SetCrashOutput(nil, debug.CrashOptions{})
+	if c.crashOut != nil {
+		c.crashOut.Close()
+	}
+	c.f.Close()
+	os.Remove(c.f.Name())
+}
+
+// LoopbackNeedles: the textual forms of a loopback client endpoint.  For ::1 the address itself is also the
+// station's side of the connection, so only forms that include the client's port are looked for.
+func LoopbackNeedles(a *net.TCPAddr) []*regexp.Regexp {
+	port := fmt.Sprint(a.Port)
+	if a.IP.To4() == nil {
+		return []*regexp.Regexp{regexp.MustCompile(`\]:` + port + `([^0-9]|$)`)}
+	}
+	var out []*regexp.Regexp
+	for _, n := range Needles(a.IP) {
+		out = append(out, regexp.MustCompile(`(?i)`+regexp.QuoteMeta(n)))
+	}
+	return append(out, regexp.MustCompile(`:`+port+`([^0-9.]|$)`))
 }
 
 func Station() *Addr { return &Addr{'s', &net.TCPAddr{IP: net.ParseIP("10.9.8.7").To4(), Port: 41245}} }
